@@ -196,7 +196,7 @@ def rw_unit(kind, T, framesv, ch, tier):
         d["align_clause"] = ("__CPROVER_ensures ((sndfile != NULL && FILE_OK && len > 0 && %s && len %% CH != 0) ==> "
                              "(__CPROVER_return_value == 0 && PSF->error == %s)) /*@C09.misaligned_count*/" % (modeok, err))
     text = (HEAD % d) + ((READ_T if kind == "read" else WRITE_T) % d)
-    props = ["C05", "C09", "C08", "C15", "C19"] + (["C06"] if kind == "read" else ["C04", "C07", "C11"])
+    props = ["C05", "C09", "C08", "C15"] + (["C19"] if ch == 2 else []) + (["C06"] if kind == "read" else ["C04", "C07", "C11"])
     return {"name": "sndfile.%s.ch%d" % (fn, ch), "props": props, "harness_text": text,
             "template": "units/gen_sndfile.py", "entry": "h_unit", "enforce": fn, "function": "sndfile.c:" + fn,
             "replace": ["psf_memset", "psf_file_valid"], "timeout": 600, "tier": tier,
@@ -227,7 +227,7 @@ def units():
     for kind in ("write", "read"):
         for ch, bw in ((2, 2), (3, 3), (1, 1), (2, 4)):
             U.append({"name": "sndfile.sf_%s_raw.ch%d.bw%d" % (kind, ch, bw),
-                      "props": ["C05", "C09", "C08", "C15", "C19"] + (["C04"] if kind == "write" else ["C06"]),
+                      "props": ["C05", "C09", "C08", "C15"] + (["C04"] if kind == "write" else ["C06"]),
                       "harness": "sndfile_raw.harness.c", "entry": "h_raw", "enforce": "sf_%s_raw" % kind,
                       "function": "sndfile.c:sf_%s_raw" % kind, "replace": ["psf_file_valid", "psf_memset", "psf_fread", "psf_fwrite"],
                       "defines": ["-DUNIT_%s_RAW" % kind.upper(), "-DCH=%d" % ch, "-DBYTEW=%d" % bw], "cbmc_flags": ["--object-bits", "12"],
@@ -254,7 +254,7 @@ def units():
     ids = [i for i in dict.fromkeys(ids)]
     undefined = [("undef_0", "0"), ("undef_7777", "0x7777"), ("undef_neg1", "(-1)"), ("undef_1003", "0x1003"), ("undef_max", "0x7fffffff")]
     for nm, val in [(i, i) for i in ids] + undefined:
-        u = dict({"name": "sndfile.sf_command", "props": ["C17", "C09", "C11", "C12", "C19"], "harness": "sndfile_command.harness.c",
+        u = dict({"name": "sndfile.sf_command", "props": ["C17", "C09", "C11", "C12"], "harness": "sndfile_command.harness.c",
               "entry": "h_command", "enforce": "sf_command", "function": "sndfile.c:sf_command", "replace": callee,
               "gi_flags": [], "cbmc_flags": ["--object-bits", "12"], "timeout": 1200, "mem_gb": 16,
               "loops": {"sf_command": [{"loop_id": 0, "assigns_locals": True,
